@@ -20,7 +20,11 @@ func init() {
 	registerDomain("inb", []string{"T", idxSort}, "Bool", `(assert (forall ((t T) (J (Array Int Int))) (! (= (inb t J) (forall ((k Int)) (=> (and (<= 0 k) (< k (rank t))) (and (<= 0 (select J k)) (< (select J k) (dim t k)))))) :pattern ((inb t J)))))
 (assert (forall ((a T) (b T) (J (Array Int Int))) (! (=> (and (sameShape a b) (inb a J)) (inb b J)) :pattern ((sameShape a b) (inb a J)))))`, "rank", "dim", "sameShape")
 	// scalar of a rank-0 style reduction (whole-tensor statistics)
-	registerDomain("nelems", []string{"T"}, "Int", `(assert (forall ((t T)) (! (>= (nelems t) 1) :pattern ((nelems t)))))`)
+	registerDomain("nelems", []string{"T"}, "Int", `(assert (forall ((t T)) (! (>= (nelems t) 1) :pattern ((nelems t)))))
+(assert (forall ((a T) (b T)) (! (=> (sameShape a b) (= (nelems a) (nelems b))) :pattern ((sameShape a b)))))`, "sameShape")
+	registerDomain("tmax", []string{"T"}, "Real", "")
+	registerDomain("tmin", []string{"T"}, "Real", "")
+	registerDomain("tvar", []string{"T"}, "Real", "")
 
 	// index maps
 	// swap2(J, n): J with positions n-2 and n-1 exchanged
@@ -43,10 +47,10 @@ func init() {
 		`(assert (forall ((J (Array Int Int)) (F (Array Int Int)) (k Int)) (! (= (select (offs J F) k) (+ (select J k) (select F k))) :pattern ((select (offs J F) k)))))`)
 
 	// fibre sums and other reductions along a dimension (uninterpreted: values of sigma-operations are checked by the bounded stand-in)
-	registerDomain("fsum", []string{"T", "Int", idxSort}, "Real", "")
-	registerDomain("fmax", []string{"T", "Int", idxSort}, "Real", "")
-	registerDomain("fmin", []string{"T", "Int", idxSort}, "Real", "")
-	registerDomain("fvar", []string{"T", "Int", idxSort}, "Real", "")
+	for _, f := range []string{"fsum", "fmax", "fmin", "fvar"} {
+		// a fibre statistic depends only on the rank(t)-1 coordinates that select the fibre
+		registerDomain(f, []string{"T", "Int", idxSort}, "Real", `(assert (forall ((t T) (d Int) (J (Array Int Int)) (K (Array Int Int))) (! (=> (forall ((k Int)) (=> (and (<= 0 k) (< k (- (rank t) 1))) (= (select J k) (select K k)))) (= (`+f+` t d J) (`+f+` t d K))) :pattern ((`+f+` t d J) (`+f+` t d K)))))`, "rank")
+	}
 	registerDomain("tsum", []string{"T"}, "Real", "")
 	registerDomain("dotsum", []string{"T", "T", idxSort}, "Real", "")
 	registerDomain("mmsum", []string{"T", "T", idxSort}, "Real", "")
